@@ -94,3 +94,38 @@ Example starttls_dialogue :
       (fst (run c init [L (Ehlo [104]); L Starttls; L (Mail MBadSyntax NoAns); L (Ehlo [104]); L Starttls; L Quit]))
   = [[250; 250; 250; 250; 250]; [220]; [503]; [250; 250; 250; 250]; [454]; [221]]%Z.
 Proof. reflexivity. Qed.
+
+(** A listener that speaks TLS from the first byte (SMTP_FORCETLS): the session starts with the flag set
+    (NewSession: tlsState = the connection's state).  On such a connection STARTTLS is never accepted and never
+    offered, whatever the client sends. *)
+Definition init_forced : session := {| st := GREET; from := None; rcpts := []; helo := []; tls := true |}.
+
+Lemma run_under_tls c : forall items s tr e,
+  tls s = true -> run c s items = (tr, e) ->
+  forall it r d, In (it, r, d) tr ->
+    (it = L Starttls -> first_code r <> 220%Z) /\
+    (forall dm, it = L (Ehlo dm) -> first_code r = 250%Z -> length r = 4%nat \/ length r = 1%nat).
+Proof.
+  induction items as [|it0 items IH]; intros s tr e Ht H it r d Hin; cbn [run] in H.
+  - inversion H; subst. destruct Hin.
+  - destruct (step c s it0) as [s1 r1 d1| |] eqn:E; [|inversion H; subst; destruct Hin|inversion H; subst; destruct Hin].
+    destruct (run c s1 items) as [tr1 e1] eqn:R. inversion H; subst tr e. clear H.
+    destruct Hin as [Hin|Hin].
+    + inversion Hin; subst it r d. split.
+      * intros ->. eapply starttls_once; eauto.
+      * intros dm -> Hc. unfold step, step_greet, step_ready, step_mail, set_st, reset in E.
+        destruct (st s) eqn:Es; try discriminate;
+          try (destruct dm; inversion E; subst; cbn in Hc; try discriminate Hc; try (right; reflexivity);
+               left; unfold ehlo_reply; rewrite Ht, Bool.andb_false_r; reflexivity);
+          inversion E; subst; cbn in Hc; try discriminate Hc; right; reflexivity.
+    + eapply IH; [eapply tls_never_dropped; eauto|exact R|exact Hin].
+Qed.
+
+Theorem forced_tls_never_starts_tls_again : forall c items it r d,
+  In (it, r, d) (fst (run c init_forced items)) ->
+  (it = L Starttls -> first_code r <> 220%Z) /\
+  (forall dm, it = L (Ehlo dm) -> first_code r = 250%Z -> length r = 4%nat \/ length r = 1%nat).
+Proof.
+  intros c items it r d Hin. destruct (run c init_forced items) as [tr e] eqn:R.
+  eapply (run_under_tls c items init_forced tr e); [reflexivity|exact R|exact Hin].
+Qed.
